@@ -873,10 +873,30 @@ namespace
                     sim::Rng rng(sim::mix3(args.seed, sim::fnv1a_str(key(fe)), i));
                     Op op;
                     op.fn = fn;
-                    const unsigned mode = (unsigned)rng.below(4);
+                    const unsigned mode = (unsigned)rng.below(5);
                     const uint64_t centre = mode == 0 ? 1 + rng.below(emax - 1) : bias - 8 + rng.below(17);
                     auto lane = [&]() -> uint64_t
                     {
+                        if (mode == 4 && !finite_only && rng.coin())
+                        {
+                            // every lane independently special or ordinary: zeros next to subnormals next to infinities next to NaNs next to normals
+                            const uint64_t sg = (uint64_t)rng.coin() << (ebits + mbits);
+                            switch (rng.below(6))
+                            {
+                            case 0:
+                                return sg; // +-0
+                            case 1:
+                                return sg | (1 + rng.below((1ull << mbits) - 1)); // subnormal
+                            case 2:
+                                return sg | (emax << mbits); // +-inf
+                            case 3:
+                                return sg | (emax << mbits) | (1 + rng.below((1ull << mbits) - 1)); // NaN
+                            case 4:
+                                return sg | ((emax - 1) << mbits) | ((1ull << mbits) - 1); // +-MAX
+                            default:
+                                return sg | (1ull << mbits); // +-MIN normal
+                            }
+                        }
                         uint64_t e = mode == 3 ? 1 + rng.below(emax - 1) : std::min<uint64_t>(emax - 1, std::max<uint64_t>(1, centre + rng.below(5)) - 2);
                         uint64_t m = rng.next() & ((1ull << mbits) - 1);
                         return ((uint64_t)rng.coin() << (ebits + mbits)) | (e << mbits) | m;
